@@ -84,7 +84,7 @@ theorem tri_projection_optimal (t0 t1 t2 n : V3 K) (a b z : K)
         ((t1.y - t0.y) * (a - a') + (t2.y - t0.y) * (b - b')) * ((t1.y - t0.y) * (a - a') + (t2.y - t0.y) * (b - b')) +
         ((t1.z - t0.z) * (a - a') + (t2.z - t0.z) * (b - b')) * ((t1.z - t0.z) * (a - a') + (t2.z - t0.z) * (b - b')) := by
     linear_combination (2 * z * (a - a')) * h1 + (2 * z * (b - b')) * h2
-  nlinarith [mul_self_nonneg ((t1.x - t0.x) * (a - a') + (t2.x - t0.x) * (b - b')),
+  linarith [key, mul_self_nonneg ((t1.x - t0.x) * (a - a') + (t2.x - t0.x) * (b - b')),
     mul_self_nonneg ((t1.y - t0.y) * (a - a') + (t2.y - t0.y) * (b - b')),
     mul_self_nonneg ((t1.z - t0.z) * (a - a') + (t2.z - t0.z) * (b - b'))]
 
